@@ -222,6 +222,26 @@ func touchesField(fn *ssa.Function, f *types.Var) bool {
 	return false
 }
 
+// storesNegField: fn stores the negate flag — directly, or in a method it calls on its own
+// receiver that does not touch ranges at all: a flag update factored out into a helper
+// (calling canonicalize or unflip does not make the caller a re-normalisation).
+func storesNegField(f *ssa.Function, neg, rng *types.Var, depth int) bool {
+	for _, b := range f.Blocks {
+		for _, ins := range b.Instrs {
+			if st, ok := ins.(*ssa.Store); ok && core.FieldVarOfAddr(st.Addr) == neg {
+				return true
+			}
+			if call, ok := ins.(*ssa.Call); ok && depth > 0 && len(f.Params) > 0 {
+				if cal := call.Call.StaticCallee(); cal != nil && core.InModule(cal) && cal.Signature.Recv() != nil &&
+					len(call.Call.Args) > 0 && call.Call.Args[0] == ssa.Value(f.Params[0]) && !touchesField(cal, rng) && storesNegField(cal, neg, rng, depth-1) {
+					return true
+				}
+			}
+		}
+	}
+	return false
+}
+
 // R-ADDMONO: "add…" methods of CharSet only add.
 // A method that makes a class case-insensitive has to keep every member the
 // class already has (a character always matches itself) and may only add the
@@ -250,26 +270,7 @@ func RAddMono(c *core.Ctx) {
 		}
 		name := core.SSAName(fn)
 		// canonicalize-like: writes negate (it re-normalises the representation as a whole)
-		// (directly, or in a method it calls on its own receiver that does not touch ranges at all:
-		// a flag update factored out into a helper — calling canonicalize does not make the caller one)
-		var storesNeg func(f *ssa.Function, depth int) bool
-		storesNeg = func(f *ssa.Function, depth int) bool {
-			for _, b := range f.Blocks {
-				for _, ins := range b.Instrs {
-					if st, ok := ins.(*ssa.Store); ok && core.FieldVarOfAddr(st.Addr) == neg {
-						return true
-					}
-					if call, ok := ins.(*ssa.Call); ok && depth > 0 && len(f.Params) > 0 {
-						if cal := call.Call.StaticCallee(); cal != nil && core.InModule(cal) && cal.Signature.Recv() != nil &&
-							len(call.Call.Args) > 0 && call.Call.Args[0] == ssa.Value(f.Params[0]) && !touchesField(cal, rng) && storesNeg(cal, depth-1) {
-							return true
-						}
-					}
-				}
-			}
-			return false
-		}
-		renorm := storesNeg(fn, 2)
+		renorm := storesNegField(fn, neg, rng, 2)
 		cnt := 0
 		for _, b := range fn.Blocks {
 			for _, ins := range b.Instrs {
@@ -320,14 +321,7 @@ func RAddMono(c *core.Ctx) {
 			continue
 		}
 		name := core.SSAName(fn)
-		renorm := false
-		for _, b := range fn.Blocks {
-			for _, ins := range b.Instrs {
-				if st, ok := ins.(*ssa.Store); ok && core.FieldVarOfAddr(st.Addr) == neg {
-					renorm = true
-				}
-			}
-		}
+		renorm := storesNegField(fn, neg, rng, 2)
 		// a method that declares the class to be "anything" replaces the list by the full range: a superset of whatever was there
 		if anyF := p.LookupField("syntax", "CharSet", "anything"); anyF != nil {
 			for _, b := range fn.Blocks {
